@@ -434,7 +434,27 @@ def templates(rng, w=None):
             v = _inflate(r, t)
             if v is not None:
                 extra.append(v)
-    return T + extra
+    return [_binarize(r, t) for t in T + extra]
+
+
+def _binarize(r, t):
+    """descriptors of and/or/xor/add/mul take two operands: write a longer operand list as a nest of two-operand
+    nodes (left- or right-leaning); claripy flattens the nest into one node again"""
+    if not isinstance(t, list) or not t or not isinstance(t[0], str) or t[0] in ("bvv", "bvs", "bools", "boolv", "int"):
+        return t
+    t = [t[0], *[_binarize(r, a) for a in t[1:]]]
+    if t[0] in ("and", "or", "xor", "add", "mul") and len(t) > 3:
+        args = t[1:]
+        if r.random() < 0.5:
+            acc = args[0]
+            for a in args[1:]:
+                acc = [t[0], acc, a]
+        else:
+            acc = args[-1]
+            for a in reversed(args[:-1]):
+                acc = [t[0], a, acc]
+        return acc
+    return t
 
 
 _NARY = {"and", "or", "xor", "add", "mul", "band", "bor"}
